@@ -28,10 +28,9 @@ from typing import (
 import attrs
 import tomlkit
 from attr.validators import _InstanceOfValidator as _AttrInstanceOfValidator
-from boolean.boolean import Expression, ParseError
+from boolean.boolean import Expression
 from debian.copyright import Copyright
 from debian.copyright import Error as DebianError
-from license_expression import ExpressionError
 
 from . import _LICENSING, ReuseInfo, SourceType
 from .covered_files import iter_files
@@ -215,7 +214,9 @@ def _str_to_set_of_expr(value: Any) -> set[Expression]:
     for expression in value:
         try:
             result.add(_LICENSING.parse(expression))
-        except (ExpressionError, ParseError) as error:
+        # Degenerate input such as '()' or a non-string makes the expression
+        # parser raise other errors than its own; they are parse errors too.
+        except Exception as error:
             raise GlobalLicensingParseValueError(
                 _("Could not parse '{expression}'").format(
                     expression=expression
